@@ -240,7 +240,8 @@ func init() {
 				if len(x.Conc) > 1 {
 					panic(unsupported("NewCoins with more than one explicit coin"))
 				}
-				return m.asCoins(x)
+				c := m.asCoins(x)
+				return &CoinsV{Dec: c.Dec, M: c.M, IsSmall: c.IsSmall, Small: c.Small} // sanitised: zero amounts dropped
 			case *CoinsV:
 				// copy + sanitise of a valid list: same map
 				return &CoinsV{Dec: dec, M: x.M, IsSmall: x.IsSmall, Small: x.Small}
